@@ -47,6 +47,13 @@ def _solve_text(args):
                 model = out[:30000]
         else:
             model = out[:500]
+        if res == 'unknown' and not second and first == 'unknown' and time.time() - t0 < 0.5 * tsec:
+            # z3 5.1 GAVE UP at once (e.g. "incomplete (theory array)" on lambda-built arrays), it did not run out of time:
+            # z3 4.8.12 decides these; asking it here keeps such answers out of the count of open obligations
+            out2 = _run(['/usr/bin/z3', '-T:%d' % tsec, '-smt2'], fn, tsec)
+            f2 = out2.strip().splitlines()[0] if out2.strip() else ''
+            if f2 == 'unsat':
+                res, backend = 'unsat', 'z3-4.8.12'
         if res == 'unknown' and second:
             # portfolio: quantifier instantiation order depends on the random seed; an `unsat` from any run is a proof
             for backend2, cmd in (('z3-5.1(seed 7)', [Z3NEW, '-T:%d' % tsec, '-smt2', 'smt.random_seed=7', 'sat.random_seed=7']),
